@@ -171,6 +171,9 @@ def execute(scn, L):
         out.states.add('%s>%s>%s' % (prev2, prev, sid))
         prev2, prev = prev, sid
 
+    out.probe('fully_legal' if k is None else 'deviates_at_%s' % (
+        'start' if k < 2 else 'depth>=2'))
+
     if k is None:
         if end != 'eof':
             es = exc_summary(exc, L) if exc is not None else {'type': end}
